@@ -16,6 +16,13 @@ package server
 // attributed to the request whose question it answers). The history is replayed on
 // ModelChains (pooled kind: KBeginPool is enabled only when the pool really can hand
 // that chain out) — CaseChains with no slabs.
+//
+// The same history a third time: the WRAPPER STACK every request arrives with at the last
+// handler — the pooled writer wrappers the middlewares in front took from their pools
+// (edns.responseWriterPool, Cache.writerPool, ...), identified by pointer and Go type, walked
+// from ch.Writer down the embedded ResponseWriter fields to the chain's base writer — replayed
+// on ModelWrap (CaseWrap: a wrapper is handed out only while no request in flight has it on
+// its chain; the answer arrives at the request that was answered).
 
 import (
 	"bytes"
@@ -36,6 +43,7 @@ import (
 	"net"
 	"net/http/httptest"
 	"os"
+	"reflect"
 	"strings"
 	"sync"
 	"testing"
@@ -49,11 +57,39 @@ import (
 	"github.com/semihalev/sdns/server/doq"
 )
 
+type vC10Layer struct {
+	typ string
+	ptr uintptr
+}
+
 type vC10Arrival struct {
-	name  string
-	chain *middleware.Chain
-	msg   *dns.Msg
-	stale string // sections the request message should not carry
+	name   string
+	chain  *middleware.Chain
+	msg    *dns.Msg
+	stale  string       // sections the request message should not carry
+	layers []vC10Layer // ch.Writer and everything beneath it, top first; the last one is the base writer
+}
+
+// vC10WriterStack walks from w down the embedded (exported) ResponseWriter fields.
+func vC10WriterStack(w middleware.ResponseWriter) []vC10Layer {
+	var out []vC10Layer
+	var cur any = w
+	for depth := 0; cur != nil && depth < 32; depth++ {
+		v := reflect.ValueOf(cur)
+		if v.Kind() != reflect.Pointer || v.IsNil() {
+			break
+		}
+		out = append(out, vC10Layer{typ: v.Elem().Type().String(), ptr: v.Pointer()})
+		if v.Elem().Kind() != reflect.Struct {
+			break
+		}
+		f := v.Elem().FieldByName("ResponseWriter")
+		if !f.IsValid() || !f.CanInterface() || f.Kind() != reflect.Interface || f.IsNil() {
+			break
+		}
+		cur = f.Interface()
+	}
+	return out
 }
 
 type vC10GateWitness struct {
@@ -84,7 +120,7 @@ func (w *vC10GateWitness) ServeDNS(ctx context.Context, ch *middleware.Chain) {
 		stale = fmt.Sprintf("the request message for %q arrives with %d answer and %d authority records", name, len(req.Answer), len(req.Ns))
 	}
 	select {
-	case w.arrived <- vC10Arrival{name: name, chain: ch, msg: req, stale: stale}:
+	case w.arrived <- vC10Arrival{name: name, chain: ch, msg: req, stale: stale, layers: vC10WriterStack(ch.Writer)}:
 	case <-time.After(5 * time.Second):
 	}
 	select {
@@ -107,6 +143,8 @@ type vC10PReq struct {
 	body   []byte
 	stream *quic.Stream
 	failed string
+	hasOpt bool // the request carried an OPT record, and its DO bit
+	do     bool
 }
 
 func vC10SelfSigned() (tls.Certificate, error) {
@@ -178,7 +216,12 @@ func TestVerifC10Pooled(t *testing.T) {
 	for cn := 0; cn < n; cn++ {
 		chainID := map[*middleware.Chain]int{}
 		msgID := map[*dns.Msg]int{}
-		var ops, obs, mops, mobs []string
+		var ops, obs, mops, mobs, xops, xobs []string
+		wrapID := map[vC10Layer]int{} // by (type, address): an address the collector reuses for another type is another wrapper
+		levelID := map[string]int{}
+		baseOf := map[uintptr]int{} // base writer -> chain
+		depthOf := map[int]int{}
+		wrapReused := false
 		var live []*vC10PReq
 		byName := map[string]*vC10PReq{}
 		kinds := map[string]int{}
@@ -214,7 +257,8 @@ func TestVerifC10Pooled(t *testing.T) {
 			m.SetQuestion(q.name, dns.TypeTXT)
 			m.Id = q.id
 			if r.Intn(2) == 0 {
-				m.SetEdns0(1232, r.Intn(3) == 0)
+				q.hasOpt, q.do = true, r.Intn(3) == 0
+				m.SetEdns0(1232, q.do)
 			}
 			packed, _ := m.Pack()
 			remote := fmt.Sprintf("198.51.100.%d:%d", 1+next%200, 4000+next)
@@ -296,6 +340,36 @@ func TestVerifC10Pooled(t *testing.T) {
 					msgID[a.msg] = mid
 				}
 				mops, mobs = append(mops, fmt.Sprintf("KBP %d %d", q.r, mid)), append(mobs, "None")
+				// the wrapper stack, outermost (first taken) first; the bottom layer is the base writer
+				if nl := len(a.layers); nl > 0 {
+					base := a.layers[nl-1]
+					if !strings.HasSuffix(base.typ, "responseWriter") && goFail == "" {
+						goFail = fmt.Sprintf("request %d: the writer stack does not end in the chain's base writer but in a %s", q.r, base.typ)
+					}
+					if c, seen := baseOf[base.ptr]; seen && c != id && goFail == "" {
+						goFail = fmt.Sprintf("request %d runs on chain %d and its writer stack ends in the base writer of chain %d", q.r, id, c)
+					}
+					baseOf[base.ptr] = id
+					var ws []string
+					for i := nl - 2; i >= 0; i-- {
+						l := a.layers[i]
+						lv, ok := levelID[l.typ]
+						if !ok {
+							lv = len(levelID) + 1
+							levelID[l.typ] = lv
+						}
+						wi, seen := wrapID[l]
+						if !seen {
+							wi = len(wrapID)
+							wrapID[l] = wi
+						} else {
+							wrapReused = true
+						}
+						ws = append(ws, fmt.Sprintf("(%d,%d)", wi, lv))
+					}
+					depthOf[q.r] = nl - 1
+					xops, xobs = append(xops, fmt.Sprintf("XB %d [%s]", q.r, strings.Join(ws, ";"))), append(xobs, "None")
+				}
 			case <-q.done:
 				// ended without ever reaching the resolver: nothing to attribute; a run in which
 				// this happens to every case is reported as blind below
@@ -337,6 +411,16 @@ func TestVerifC10Pooled(t *testing.T) {
 					m := new(dns.Msg)
 					if m.Unpack(q.body) == nil && len(m.Question) == 1 {
 						gotName, gotID = m.Question[0].Name, int(m.Id)
+						// what the edns wrapper shows of the client: the OPT facts of THIS request
+						// (a wrapper holding another request's facts answers an OPT-less query with an
+						// OPT, or echoes the other client's DO bit)
+						opt := m.IsEdns0()
+						if (opt != nil) != q.hasOpt && goFail == "" {
+							goFail = fmt.Sprintf("request %d (%s): the query carried OPT=%v and the reply carries OPT=%v", q.r, q.kind, q.hasOpt, opt != nil)
+						}
+						if opt != nil && opt.Do() != q.do && goFail == "" {
+							goFail = fmt.Sprintf("request %d (%s): the query's DO bit is %v and the reply's is %v", q.r, q.kind, q.do, opt.Do())
+						}
 						for _, rr := range m.Answer {
 							if tx, ok := rr.(*dns.TXT); ok && (len(tx.Txt) == 0 || tx.Txt[0] != gotName) && goFail == "" {
 								goFail = fmt.Sprintf("request %d: a reply about %q whose answer encodes %v", q.r, gotName, tx.Txt)
@@ -357,6 +441,7 @@ func TestVerifC10Pooled(t *testing.T) {
 					tagb := []byte(strings.SplitN(gotName, ".", 2)[0]) // the first label names the request
 					ops = append(ops, fmt.Sprintf("KW %d %s", owner.r, vC10PRLE(tagb)))
 					obs = append(obs, fmt.Sprintf("Some (%d,%s)", q.r, vC10PRLE(tagb)))
+					xops, xobs = append(xops, fmt.Sprintf("XW %d", owner.r)), append(xobs, fmt.Sprintf("Some %d", q.r))
 					if owner != q && goFail == "" {
 						goFail = fmt.Sprintf("request %d (%s, asked %q) received the reply to request %d (%q)", q.r, q.kind, q.name, owner.r, gotName)
 					}
@@ -373,6 +458,7 @@ func TestVerifC10Pooled(t *testing.T) {
 			}
 			ops, obs = append(ops, fmt.Sprintf("KEP %d", q.r)), append(obs, "None")
 			mops, mobs = append(mops, fmt.Sprintf("KEP %d", q.r)), append(mobs, "None")
+			xops, xobs = append(xops, fmt.Sprintf("XE %d %d", q.r, depthOf[q.r])), append(xobs, "None")
 		}
 
 		nops := 6 + r.Intn(12)
@@ -418,6 +504,14 @@ func TestVerifC10Pooled(t *testing.T) {
 			b, _ := json.Marshal(map[string]any{"k": kind + "-msgs", "nontrivial": len(msgID) < next,
 				"coq":  fmt.Sprintf("CaseChains 0 [%s] [%s]", strings.Join(mops, ";"), strings.Join(mobs, ";")),
 				"desc": map[string]any{"requests": next, "request_messages_seen": len(msgID)}})
+			f.Write(append(b, '\n'))
+		}
+		// ... and the pooled writer wrappers of the same history
+		// (also for a history the Go-side oracle already rejected: the model must reject it too)
+		if !inconclusive && len(xops) > 0 {
+			b, _ := json.Marshal(map[string]any{"k": kind + "-wraps", "nontrivial": wrapReused && emissions > 1,
+				"coq":  fmt.Sprintf("CaseWrap [%s] [%s]", strings.Join(xops, ";"), strings.Join(xobs, ";")),
+				"desc": map[string]any{"requests": next, "wrapper_types": levelID, "wrappers_seen": len(wrapID), "wrapper_reused": wrapReused}})
 			f.Write(append(b, '\n'))
 		}
 	}
